@@ -721,7 +721,18 @@ def finish(ctx, level, explanation, t0, extra_cov=None, trusted_base=None):
     return 1 if new_viol else 0
 
 
+def run_proxied(ctx, module, rule, keep):
+    """file the obligations of `keep` rules of another property's module under our `rule`; inside
+    a proxied run nested proxies are skipped (their obligations would be dropped anyway, and two
+    modules may proxy each other)"""
+    if getattr(ctx, 'is_proxy', False):
+        return
+    module.run(Proxy(ctx, rule, keep))
+
+
 class Proxy(object):
+    is_proxy = True
+
     """Run another property's rule module (or helper) and file the obligations of the rules in
     `keep` under our own rule id: the other property's rule is a necessary condition of ours too.
     Everything else the other module decides is dropped."""
